@@ -455,6 +455,14 @@ func interfaceToValue(v interface{}) vm.Value {
 			obj[k] = interfaceToValue(elem)
 		}
 		return vm.ObjectValue{Val: obj}
+	case []string:
+		// ProcessQueryParams keeps a repeated undeclared query parameter
+		// (?tag=a&tag=b) as a []string.
+		arr := make([]vm.Value, len(val))
+		for i, elem := range val {
+			arr[i] = vm.StringValue{Val: elem}
+		}
+		return vm.ArrayValue{Val: arr}
 	default:
 		return vm.NullValue{}
 	}
